@@ -422,7 +422,7 @@ pub fn run(e: &Engine) {
     };
     e.run_prop("large-recipes", ncases, || recipe_strategy(max_n), |c| c.to_json(), check_recipe);
     if e.tier == Tier::Thorough {
-        crate::fuzzrun::campaign(e, "roundtrip", 300_000, 700);
+        crate::fuzzrun::campaign(e, "roundtrip", 120_000, 700);
     }
     let huge = vec![Recipe { kind: 1, n: e.tier.pick(2_300_000, 4_000_000), seed: e.seed ^ 0x16, fanout: 16, keylen: 12, values: 2 }];
     e.run_list("one-file-over-16MiB", &huge, |r| r.to_json(), check_recipe);
